@@ -3,7 +3,7 @@ from .. import simcheck
 
 
 def main(tier, seed):
-    rep = simcheck.sim_main("C17", tier, seed, ["F5:naive,branch:naive"])
+    rep = simcheck.sim_main("C17", tier, seed, ["F5:naive,branch:naive,scale:naive"])
     return rep.finish()
 
 
